@@ -22,7 +22,7 @@ def make_options(tmpdir=None, **kw):
 
 
 def traced_solve(device, options, A=0.0, currents=None, eps=1.0, seed_solution=None,
-                 on_step=None, before_step=None):
+                 on_step=None, before_step=None, resolve=0, between=None):
     """Run tdgl's solver; on_step(solver, state, kwargs, result) is called after every update."""
     from tdgl.solver.solver import TDGLSolver
     solver = TDGLSolver(device=device, options=options, applied_vector_potential=A,
@@ -58,6 +58,12 @@ def traced_solve(device, options, A=0.0, currents=None, eps=1.0, seed_solution=N
 
     solver.update = wrapped
     sol = solver.solve()
+    for k in range(resolve):
+        # history form: the SAME solver object is solved again (between(solver, k) may change options in between)
+        thread["prev"] = None
+        if between is not None:
+            between(solver, k)
+        sol = solver.solve()
     return sol, solver
 
 
